@@ -1,9 +1,9 @@
 #!/bin/bash
-# usage: tools/seed_sweep.sh [tier] [name-glob] — run every kept seeded change (and every mutant) against its
+# usage: tools/seed_sweep.sh [tier] [name-glob] [property-override] — run every kept seeded change (and every mutant) against its
 # property's check, in a scratch worktree of /repo (HEAD) and a scratch copy of /verif, so that /repo, the
 # committed evidence and concurrently running checks are left alone.  Prints one line per seed.
 set -u
-TIER="${1:-quick}"; GLOB="${2:-*}"
+TIER="${1:-quick}"; GLOB="${2:-*}"; PROPOVR="${3:-}"
 WT=/tmp/wt/sweep-$$; VS=/tmp/vsweep-$$
 git -C /repo worktree add -q --detach "$WT" HEAD || exit 9
 mkdir -p "$VS" && rsync -a --exclude .git --exclude .work --exclude replay /verif/ "$VS"/
@@ -11,7 +11,7 @@ trap 'git -C /repo worktree remove --force "$WT" >/dev/null 2>&1; rm -rf "$VS"' 
 for d in /verif/seeded/$GLOB/ /verif/mutants/$GLOB.diff; do
   [ -e "$d" ] || continue
   if [ -d "$d" ]; then patch="$d/patch.diff"; name=$(basename "$d"); else patch="$d"; name="mutant:$(basename "$d" .diff)"; fi
-  prop=$(basename "$d" | cut -c1-3)
+  prop=$(basename "$d" | cut -c1-3); [ -n "$PROPOVR" ] && prop="$PROPOVR"
   if ! git -C "$WT" apply "$patch" 2>/dev/null; then echo "$name | $prop | PATCH-DOES-NOT-APPLY (the fixed tree changed these lines)"; continue; fi
   out=$(cd "$VS" && VERIF_REPO="$WT" ./vcheck run "$prop" --tier "$TIER" 2>&1); rc=$?
   sigs=$(echo "$out" | grep "^  sig" | head -3 | sed 's/^  sig=//' | tr '\n' ';')
